@@ -219,9 +219,9 @@ impl Check for C12 {
     fn generate(r: &mut Rng, tier: Tier) -> Case {
         let mut c = gen::draw_cfg(r, tier);
         // images grow by a factor of up to 3: keep the source diagrams small
-        c.max_extra_nodes = c.max_extra_nodes.min(if c.large { 9 } else { 3 });
-        c.max_edges = c.max_edges.min(if c.large { 6 } else { 3 });
-        c.max_iface = c.max_iface.min(if c.large { 5 } else { 3 });
+        c.max_extra_nodes = c.max_extra_nodes.min(if c.huge { 140 } else if c.large { 9 } else { 3 });
+        c.max_edges = c.max_edges.min(if c.huge { 70 } else if c.large { 6 } else { 3 });
+        c.max_iface = c.max_iface.min(if c.huge { 70 } else if c.large { 5 } else { 3 });
         c.max_arity = c.max_arity.min(3);
         let (f, g) = gen::gen_pair(r, &c);
         let spec = gen_spec(r, c.node_labels);
@@ -230,6 +230,8 @@ impl Check for C12 {
     fn execute(c: &Case, ex: &mut Exec) -> Result<(), Violation> {
         ex.workload_fp = mix(mix(c.f.fingerprint(), c.g.fingerprint()), crate::rng::hash_str(&format!("{:?}{:?}{:?}", c.spec, c.a, c.b)));
         ex.nontrivial = c.f.n() > 0;
+        ex.probe_if(c.f.n() >= 64 || c.f.m() >= 64 || c.f.s.len() >= 64 || c.f.t.len() >= 64, "size_64_or_more");
+        ex.probe_if(c.f.n() >= 256 || c.f.m() >= 256 || c.f.s.len() >= 256 || c.f.t.len() >= 256, "size_256_or_more");
         ex.probe_if(c.spec.ob.iter().any(|o| o.is_empty()), "object_mapped_to_empty_list");
         ex.probe_if(c.spec.ob.iter().any(|o| o.len() >= 2), "object_mapped_to_many");
         ex.probe_if(c.f.e.iter().any(|e| c.spec.kind[e.l as usize % c.spec.kind.len()] == 1), "composite_image");
